@@ -2,7 +2,7 @@
    every history of start / stop / process_event / enqueue_event / execute_queued_events the back engine is the
    specification extended by one pending list: every stored occurrence is dispatched exactly once, oldest first, each as
    a complete step, at the end of the next start() / process_event / execute_queued_events. *)
-From Msm Require Import Run Lemmas_C19 Lemmas_Rows Lemmas_Sim Spec Lemmas_Core Lemmas_SpecBack Lemmas_SpecRun.
+From Msm Require Import Run Lemmas_C19 Lemmas_Rows Lemmas_Sim Spec Lemmas_Core Lemmas_SpecBack Lemmas_SpecRun Lemmas_Equiv.
 From Coq Require Import Lia.
 
 Section BackQueue.
@@ -81,6 +81,32 @@ Proof.
   - apply quiet_nil. apply ok_init.
   - constructor.
   - cbn. lia.
+Qed.
+
+(* back11 on the definitions it can compile, and any two configurations of the back family side by side *)
+Definition back_family (cf:cfg) (md:mdef) : Prop :=
+  match c_be cf with Back => True | Back11 => no_internal (md_root md) | Mp11 => False end.
+
+Theorem back_family_queue_is_spec : forall cf md l,
+  back_family cf md -> flat_events md -> core (md_root md) -> back_start_queues = true -> Forall qplain_op l ->
+  count_enq l + depth (md_root md) + 3 <= default_fuel ->
+  Forall2 step_ok (sp_qrun (c_pol cf) (md_root md) (abs (init_rnode (md_root md)), []) l) (run cf md l).
+Proof.
+  intros cf md l Hfam Hflat Hcore Hq Hall Hf. unfold back_family in Hfam. destruct cf as [be fct pl qb]. cbn [c_be c_pol] in *.
+  destruct be; try contradiction.
+  - apply (back_queue_is_spec (Cfg Back fct pl qb)); auto.
+  - rewrite <- (run_back_back11 fct pl qb md l Hfam). apply (back_queue_is_spec (Cfg Back fct pl qb)); auto.
+Qed.
+
+Theorem back_family_same_queue_behaviour : forall cf1 cf2 md l,
+  c_pol cf1 = c_pol cf2 -> back_family cf1 md -> back_family cf2 md -> flat_events md -> core (md_root md) ->
+  back_start_queues = true -> Forall qplain_op l -> count_enq l + depth (md_root md) + 3 <= default_fuel ->
+  Forall2 same_step_strict (run cf1 md l) (run cf2 md l).
+Proof.
+  intros cf1 cf2 md l Hpol H1 H2 Hflat Hcore Hq Hall Hf.
+  eapply Forall2_same_strict.
+  - apply back_family_queue_is_spec; eauto.
+  - rewrite Hpol. apply back_family_queue_is_spec; eauto.
 Qed.
 
 (* a history inside the hypotheses, on the nested example definition *)
